@@ -499,9 +499,16 @@ func genECase(t *rapid.T) ECase {
 			}
 		}
 		ec.Ops = append(ec.Ops, EOp{K: "register", Node: h})
+		// in a third of these cases the latecomer is named twice: the elected replica's
+		// start fails on the repeated address after the earlier ones were attached -
+		// nothing may stay attached or counted
+		more := []int{h}
+		if rf >= 3 && rapid.IntRange(0, 2).Draw(t, "twice") == 0 {
+			more = []int{h, h}
+		}
 		for _, i := range rapid.Permutation(seqInts(n)).Draw(t, "starters") {
 			if i != h {
-				ec.Ops = append(ec.Ops, EOp{K: "startmulti", Node: i, More: []int{h}})
+				ec.Ops = append(ec.Ops, EOp{K: "startmulti", Node: i, More: more})
 			}
 		}
 		return ec
